@@ -4,7 +4,8 @@
    list; Cfg/Analysis.v mirrors GrammarAnalyzer.expand_rule.  harness/props/C01.py compares, on every run,
    the model's columns / to_scan sets / outcome / prediction table with what lark computes. *)
 From Coq Require Import List Arith Bool.
-From LV Require Import Cfg.Grammar Cfg.Analysis Cfg.Analysis_proofs Earley.Spec Earley.Alg Earley.Alg_proofs.
+From LV Require Import Cfg.Grammar Cfg.Analysis Cfg.Analysis_proofs Earley.Spec Earley.Alg Earley.Alg_proofs
+  Earley.Dyn Earley.Dyn_proofs.
 Import ListNotations.
 
 (* Parser.predictions[a] (= expand_rule, which always terminates within its fuel) is exactly the set of rules
@@ -85,4 +86,88 @@ Proof.
   - intros H. apply C01_basic in H. vm_compute in H. discriminate.
   - vm_compute. reflexivity.
   - vm_compute. reflexivity.
+Qed.
+
+(* ---------------------------------------------------------------------------------------------------------- *)
+(* The dynamic lexers (lexer='dynamic' / 'dynamic_complete').  Model: Earley/Dyn.v mirrors xearley.Parser._parse and
+   scan (delayed_matches, complete_lex, %ignore carry-over, UnexpectedCharacters test) over predict_and_complete of
+   Earley/Alg.v; the regex engine is an oracle (rmatch: the one match at a position; rtrunc: the match on a truncated
+   window, as complete_lex asks).  `fwd` = the engine never returns an empty match (lark refuses zero-width terminals
+   when it builds a dynamic-lexer parser).  The language is stated over the ends the code explores (ends_of). *)
+
+(* the ends explored for terminal t at position i: the engine's match, and with complete_lex the matches on the
+   truncations of that match *)
+Theorem C01_dynamic_ends rmatch rtrunc complete_lex t i j :
+  In j (ends_of rmatch rtrunc complete_lex t i) <->
+  exists e, rmatch t i = Some e /\
+            (j = e \/ (complete_lex = true /\ exists k, 1 <= k < e - i /\ rtrunc t i (e - k) = Some j)).
+Proof. exact (ends_spec rmatch rtrunc complete_lex t i j). Qed.
+Print Assumptions C01_dynamic_ends.
+
+(* columns and to_scan sets of the run = the chart over the position graph (terminal spans, ignored spans) *)
+Theorem C01_dynamic_trace G start n rmatch rtrunc complete_lex ignore k x :
+  fwd rmatch rtrunc ->
+  k < length (d_cols (dyn_parse G start n rmatch rtrunc complete_lex ignore)) ->
+  (In x (colf (d_cols (dyn_parse G start n rmatch rtrunc complete_lex ignore)) k) \/
+   In x (colf (d_scans (dyn_parse G start n rmatch rtrunc complete_lex ignore)) k)
+   <-> gchart G start rmatch rtrunc complete_lex ignore k x).
+Proof. exact (fun H => dyn_trace_is_gchart G start n rmatch rtrunc complete_lex ignore H k x). Qed.
+Print Assumptions C01_dynamic_trace.
+
+Theorem C01_dynamic_fuel G start n rmatch rtrunc complete_lex ignore i :
+  fwd rmatch rtrunc -> d_out (dyn_parse G start n rmatch rtrunc complete_lex ignore) <> DOutOfFuel i.
+Proof. exact (fun H => dyn_never_out_of_fuel G start n rmatch rtrunc complete_lex ignore H i). Qed.
+Print Assumptions C01_dynamic_fuel.
+
+(* if the model accepts, there is a derivation of start from position 0 whose terminal leaves are spans (t,i,j) with
+   j among the ends explored for t at i, ignored spans being skipped before terminals and after the sentence *)
+Theorem C01_dynamic_sound G start n rmatch rtrunc complete_lex ignore :
+  fwd rmatch rtrunc ->
+  dyn_accepts G start n rmatch rtrunc complete_lex ignore = true ->
+  gsentence G start n rmatch rtrunc complete_lex ignore.
+Proof. exact (fun H => proj1 (dyn_accepts_iff_gsentence G start n rmatch rtrunc complete_lex ignore H)). Qed.
+Print Assumptions C01_dynamic_sound.
+
+(* ... and every such derivation is found *)
+Theorem C01_dynamic_complete G start n rmatch rtrunc complete_lex ignore :
+  fwd rmatch rtrunc ->
+  gsentence G start n rmatch rtrunc complete_lex ignore ->
+  dyn_accepts G start n rmatch rtrunc complete_lex ignore = true.
+Proof. exact (fun H => proj2 (dyn_accepts_iff_gsentence G start n rmatch rtrunc complete_lex ignore H)). Qed.
+Print Assumptions C01_dynamic_complete.
+
+(* string terminals (the engine matches t at i iff its non-empty string starts there; a window shorter than the
+   string never matches): the model accepts exactly the character-level language of the grammar with ignored
+   strings allowed before every terminal and at the end - under both dynamic lexers *)
+Theorem C01_dynamic_strings G start text tstr rmatch rtrunc complete_lex ignore :
+  (forall t, tstr t <> []) ->
+  (forall t i j, rmatch t i = Some j <-> span nat text i j (tstr t)) ->
+  (forall t i lim j, rtrunc t i lim = Some j -> i + length (tstr t) <= lim /\ span nat text i j (tstr t)) ->
+  (dyn_accepts G start (length text) rmatch rtrunc complete_lex ignore = true <->
+   csentence G start text tstr ignore).
+Proof. exact (dyn_accepts_iff_csentence G start text tstr rmatch rtrunc complete_lex ignore). Qed.
+Print Assumptions C01_dynamic_strings.
+
+(* Non-vacuity, and the content of finding F7 at model level:  start: X "b",  X: /a|ab/,  text abb.
+   With the answers Python's re gives (X at 0 ends at 1) the model rejects - there is no derivation over the
+   explored ends - while an engine returning the longest match (X at 0 ends at 2) makes the same model accept. *)
+Definition f7_G : grammar := [mkRule 0 [T 0; T 1]].
+Definition f7_re (t i : nat) : option nat :=
+  match t, i with 0, 0 => Some 1 | 1, 1 => Some 2 | 1, 2 => Some 3 | _, _ => None end.
+Definition f7_longest (t i : nat) : option nat :=
+  match t, i with 0, 0 => Some 2 | 1, 1 => Some 2 | 1, 2 => Some 3 | _, _ => None end.
+Definition no_trunc (t i lim : nat) : option nat := None.
+
+Example C01_dynamic_example :
+  fwd f7_re no_trunc /\ fwd f7_longest no_trunc /\
+  ~ gsentence f7_G 0 3 f7_re no_trunc true [] /\
+  gsentence f7_G 0 3 f7_longest no_trunc false [].
+Proof.
+  assert (F1 : fwd f7_re no_trunc).
+  { split; [|discriminate]. intros [|[|t]] [|[|[|i]]] j H; inversion H; auto. }
+  assert (F2 : fwd f7_longest no_trunc).
+  { split; [|discriminate]. intros [|[|t]] [|[|[|i]]] j H; inversion H; auto. }
+  split; [exact F1|split; [exact F2|split]].
+  - intros H. apply (C01_dynamic_complete _ _ _ _ _ _ _ F1) in H. vm_compute in H. discriminate.
+  - apply (C01_dynamic_sound _ _ _ _ _ _ _ F2). vm_compute. reflexivity.
 Qed.
